@@ -1,0 +1,1560 @@
+	.file	"test_archive.c"
+	.text
+.Ltext0:
+	.file 0 "/repo/aldor/aldor/src" "test/test_archive.c"
+	.section	.rodata
+.LC0:
+	.string	"testArchive"
+	.text
+	.globl	archiveTestSuite
+	.type	archiveTestSuite, @function
+archiveTestSuite:
+.LFB0:
+	.file 1 "test/test_archive.c"
+	.loc 1 11 1
+	.cfi_startproc
+	pushq	%rbp
+	.cfi_def_cfa_offset 16
+	.cfi_offset 6, -16
+	movq	%rsp, %rbp
+	.cfi_def_cfa_register 6
+	.loc 1 12 2
+	call	init@PLT
+	.loc 1 13 2
+	leaq	testArchive(%rip), %rax
+	movq	%rax, %rsi
+	leaq	.LC0(%rip), %rax
+	movq	%rax, %rdi
+	call	showTest@PLT
+	.loc 1 14 2
+	call	fini@PLT
+	.loc 1 15 1
+	nop
+	popq	%rbp
+	.cfi_def_cfa 7, 8
+	ret
+	.cfi_endproc
+.LFE0:
+	.size	archiveTestSuite, .-archiveTestSuite
+	.section	.rodata
+.LC1:
+	.string	"arch-test/foo.al"
+.LC2:
+	.string	"mkdir arch-test"
+.LC3:
+	.string	""
+	.align 8
+.LC4:
+	.string	"ar r arch-test/foo.al Makefile"
+.LC5:
+	.string	"t0"
+.LC6:
+	.string	"rm -rf arch-test"
+	.text
+	.type	testArchive, @function
+testArchive:
+.LFB1:
+	.loc 1 19 1
+	.cfi_startproc
+	pushq	%rbp
+	.cfi_def_cfa_offset 16
+	.cfi_offset 6, -16
+	movq	%rsp, %rbp
+	.cfi_def_cfa_register 6
+	subq	$32, %rsp
+	.loc 1 21 19
+	leaq	.LC1(%rip), %rax
+	movq	%rax, %rdi
+	call	fnameParse@PLT
+	movq	%rax, -8(%rbp)
+	.loc 1 23 11
+	leaq	.LC2(%rip), %rax
+	movq	%rax, %rdi
+	call	system@PLT
+	movl	%eax, -12(%rbp)
+	.loc 1 24 2
+	movl	-12(%rbp), %eax
+	movl	%eax, %edx
+	movl	$0, %esi
+	leaq	.LC3(%rip), %rax
+	movq	%rax, %rdi
+	call	testIntEqual@PLT
+	.loc 1 25 11
+	leaq	.LC4(%rip), %rax
+	movq	%rax, %rdi
+	call	system@PLT
+	movl	%eax, -12(%rbp)
+	.loc 1 26 2
+	movl	-12(%rbp), %eax
+	movl	%eax, %edx
+	movl	$0, %esi
+	leaq	.LC3(%rip), %rax
+	movq	%rax, %rdi
+	call	testIntEqual@PLT
+	.loc 1 28 7
+	leaq	.LC1(%rip), %rax
+	movq	%rax, %rdi
+	call	arFrString@PLT
+	movq	%rax, -24(%rbp)
+	.loc 1 29 2
+	movq	-24(%rbp), %rax
+	movq	%rax, %rsi
+	leaq	.LC5(%rip), %rax
+	movq	%rax, %rdi
+	call	testIsNotNull@PLT
+	.loc 1 31 11
+	leaq	.LC6(%rip), %rax
+	movq	%rax, %rdi
+	call	system@PLT
+	movl	%eax, -12(%rbp)
+	.loc 1 32 2
+	movl	-12(%rbp), %eax
+	movl	%eax, %edx
+	movl	$0, %esi
+	leaq	.LC3(%rip), %rax
+	movq	%rax, %rdi
+	call	testIntEqual@PLT
+	.loc 1 33 1
+	nop
+	leave
+	.cfi_def_cfa 7, 8
+	ret
+	.cfi_endproc
+.LFE1:
+	.size	testArchive, .-testArchive
+.Letext0:
+	.file 2 "/usr/include/x86_64-linux-gnu/bits/types.h"
+	.file 3 "/usr/lib/gcc/x86_64-linux-gnu/12/include/stddef.h"
+	.file 4 "/usr/include/x86_64-linux-gnu/bits/types/struct_FILE.h"
+	.file 5 "/usr/include/x86_64-linux-gnu/bits/types/FILE.h"
+	.file 6 "./cport.h"
+	.file 7 "./axlgen.h"
+	.file 8 "./fname.h"
+	.file 9 "./axlobs.h"
+	.file 10 "./archive.h"
+	.file 11 "test/testlib.h"
+	.file 12 "/usr/include/stdlib.h"
+	.section	.debug_info,"",@progbits
+.Ldebug_info0:
+	.long	0x5fb
+	.value	0x5
+	.byte	0x1
+	.byte	0x8
+	.long	.Ldebug_abbrev0
+	.uleb128 0x11
+	.long	.LASF98
+	.byte	0xc
+	.long	.LASF0
+	.long	.LASF1
+	.quad	.Ltext0
+	.quad	.Letext0-.Ltext0
+	.long	.Ldebug_line0
+	.uleb128 0x12
+	.byte	0x4
+	.byte	0x5
+	.string	"int"
+	.uleb128 0x3
+	.byte	0x1
+	.byte	0x8
+	.long	.LASF2
+	.uleb128 0x3
+	.byte	0x2
+	.byte	0x7
+	.long	.LASF3
+	.uleb128 0x3
+	.byte	0x4
+	.byte	0x7
+	.long	.LASF4
+	.uleb128 0x3
+	.byte	0x8
+	.byte	0x7
+	.long	.LASF5
+	.uleb128 0x3
+	.byte	0x1
+	.byte	0x6
+	.long	.LASF6
+	.uleb128 0x3
+	.byte	0x2
+	.byte	0x5
+	.long	.LASF7
+	.uleb128 0x3
+	.byte	0x8
+	.byte	0x5
+	.long	.LASF8
+	.uleb128 0x4
+	.long	.LASF9
+	.byte	0x2
+	.byte	0x98
+	.byte	0x12
+	.long	0x5f
+	.uleb128 0x4
+	.long	.LASF10
+	.byte	0x2
+	.byte	0x99
+	.byte	0x12
+	.long	0x5f
+	.uleb128 0x13
+	.byte	0x8
+	.uleb128 0x2
+	.long	0x85
+	.uleb128 0x3
+	.byte	0x1
+	.byte	0x6
+	.long	.LASF11
+	.uleb128 0x14
+	.long	0x85
+	.uleb128 0x3
+	.byte	0x4
+	.byte	0x4
+	.long	.LASF12
+	.uleb128 0x3
+	.byte	0x8
+	.byte	0x4
+	.long	.LASF13
+	.uleb128 0x4
+	.long	.LASF14
+	.byte	0x3
+	.byte	0xd6
+	.byte	0x1b
+	.long	0x4a
+	.uleb128 0x6
+	.long	.LASF54
+	.byte	0xd8
+	.byte	0x4
+	.byte	0x31
+	.byte	0x8
+	.long	0x232
+	.uleb128 0x1
+	.long	.LASF15
+	.byte	0x4
+	.byte	0x33
+	.byte	0x7
+	.long	0x2e
+	.byte	0
+	.uleb128 0x1
+	.long	.LASF16
+	.byte	0x4
+	.byte	0x36
+	.byte	0x9
+	.long	0x80
+	.byte	0x8
+	.uleb128 0x1
+	.long	.LASF17
+	.byte	0x4
+	.byte	0x37
+	.byte	0x9
+	.long	0x80
+	.byte	0x10
+	.uleb128 0x1
+	.long	.LASF18
+	.byte	0x4
+	.byte	0x38
+	.byte	0x9
+	.long	0x80
+	.byte	0x18
+	.uleb128 0x1
+	.long	.LASF19
+	.byte	0x4
+	.byte	0x39
+	.byte	0x9
+	.long	0x80
+	.byte	0x20
+	.uleb128 0x1
+	.long	.LASF20
+	.byte	0x4
+	.byte	0x3a
+	.byte	0x9
+	.long	0x80
+	.byte	0x28
+	.uleb128 0x1
+	.long	.LASF21
+	.byte	0x4
+	.byte	0x3b
+	.byte	0x9
+	.long	0x80
+	.byte	0x30
+	.uleb128 0x1
+	.long	.LASF22
+	.byte	0x4
+	.byte	0x3c
+	.byte	0x9
+	.long	0x80
+	.byte	0x38
+	.uleb128 0x1
+	.long	.LASF23
+	.byte	0x4
+	.byte	0x3d
+	.byte	0x9
+	.long	0x80
+	.byte	0x40
+	.uleb128 0x1
+	.long	.LASF24
+	.byte	0x4
+	.byte	0x40
+	.byte	0x9
+	.long	0x80
+	.byte	0x48
+	.uleb128 0x1
+	.long	.LASF25
+	.byte	0x4
+	.byte	0x41
+	.byte	0x9
+	.long	0x80
+	.byte	0x50
+	.uleb128 0x1
+	.long	.LASF26
+	.byte	0x4
+	.byte	0x42
+	.byte	0x9
+	.long	0x80
+	.byte	0x58
+	.uleb128 0x1
+	.long	.LASF27
+	.byte	0x4
+	.byte	0x44
+	.byte	0x16
+	.long	0x24b
+	.byte	0x60
+	.uleb128 0x1
+	.long	.LASF28
+	.byte	0x4
+	.byte	0x46
+	.byte	0x14
+	.long	0x250
+	.byte	0x68
+	.uleb128 0x1
+	.long	.LASF29
+	.byte	0x4
+	.byte	0x48
+	.byte	0x7
+	.long	0x2e
+	.byte	0x70
+	.uleb128 0x1
+	.long	.LASF30
+	.byte	0x4
+	.byte	0x49
+	.byte	0x7
+	.long	0x2e
+	.byte	0x74
+	.uleb128 0x1
+	.long	.LASF31
+	.byte	0x4
+	.byte	0x4a
+	.byte	0xb
+	.long	0x66
+	.byte	0x78
+	.uleb128 0x1
+	.long	.LASF32
+	.byte	0x4
+	.byte	0x4d
+	.byte	0x12
+	.long	0x3c
+	.byte	0x80
+	.uleb128 0x1
+	.long	.LASF33
+	.byte	0x4
+	.byte	0x4e
+	.byte	0xf
+	.long	0x51
+	.byte	0x82
+	.uleb128 0x1
+	.long	.LASF34
+	.byte	0x4
+	.byte	0x4f
+	.byte	0x8
+	.long	0x255
+	.byte	0x83
+	.uleb128 0x1
+	.long	.LASF35
+	.byte	0x4
+	.byte	0x51
+	.byte	0xf
+	.long	0x265
+	.byte	0x88
+	.uleb128 0x1
+	.long	.LASF36
+	.byte	0x4
+	.byte	0x59
+	.byte	0xd
+	.long	0x72
+	.byte	0x90
+	.uleb128 0x1
+	.long	.LASF37
+	.byte	0x4
+	.byte	0x5b
+	.byte	0x17
+	.long	0x26f
+	.byte	0x98
+	.uleb128 0x1
+	.long	.LASF38
+	.byte	0x4
+	.byte	0x5c
+	.byte	0x19
+	.long	0x279
+	.byte	0xa0
+	.uleb128 0x1
+	.long	.LASF39
+	.byte	0x4
+	.byte	0x5d
+	.byte	0x14
+	.long	0x250
+	.byte	0xa8
+	.uleb128 0x1
+	.long	.LASF40
+	.byte	0x4
+	.byte	0x5e
+	.byte	0x9
+	.long	0x7e
+	.byte	0xb0
+	.uleb128 0x1
+	.long	.LASF41
+	.byte	0x4
+	.byte	0x5f
+	.byte	0xa
+	.long	0x9f
+	.byte	0xb8
+	.uleb128 0x1
+	.long	.LASF42
+	.byte	0x4
+	.byte	0x60
+	.byte	0x7
+	.long	0x2e
+	.byte	0xc0
+	.uleb128 0x1
+	.long	.LASF43
+	.byte	0x4
+	.byte	0x62
+	.byte	0x8
+	.long	0x27e
+	.byte	0xc4
+	.byte	0
+	.uleb128 0x4
+	.long	.LASF44
+	.byte	0x5
+	.byte	0x7
+	.byte	0x19
+	.long	0xab
+	.uleb128 0x15
+	.long	.LASF99
+	.byte	0x4
+	.byte	0x2b
+	.byte	0xe
+	.uleb128 0x8
+	.long	.LASF45
+	.uleb128 0x2
+	.long	0x246
+	.uleb128 0x2
+	.long	0xab
+	.uleb128 0xb
+	.long	0x85
+	.long	0x265
+	.uleb128 0xc
+	.long	0x4a
+	.byte	0
+	.byte	0
+	.uleb128 0x2
+	.long	0x23e
+	.uleb128 0x8
+	.long	.LASF46
+	.uleb128 0x2
+	.long	0x26a
+	.uleb128 0x8
+	.long	.LASF47
+	.uleb128 0x2
+	.long	0x274
+	.uleb128 0xb
+	.long	0x85
+	.long	0x28e
+	.uleb128 0xc
+	.long	0x4a
+	.byte	0x13
+	.byte	0
+	.uleb128 0x2
+	.long	0x232
+	.uleb128 0x3
+	.byte	0x8
+	.byte	0x5
+	.long	.LASF48
+	.uleb128 0x2
+	.long	0x8c
+	.uleb128 0x9
+	.long	.LASF49
+	.value	0x138
+	.byte	0x17
+	.long	0x35
+	.uleb128 0x9
+	.long	.LASF50
+	.value	0x13a
+	.byte	0x17
+	.long	0x4a
+	.uleb128 0x9
+	.long	.LASF51
+	.value	0x159
+	.byte	0xf
+	.long	0x2ab
+	.uleb128 0x9
+	.long	.LASF52
+	.value	0x16a
+	.byte	0xf
+	.long	0x80
+	.uleb128 0x4
+	.long	.LASF53
+	.byte	0x7
+	.byte	0x28
+	.byte	0x1b
+	.long	0x2db
+	.uleb128 0x2
+	.long	0x2e0
+	.uleb128 0x6
+	.long	.LASF55
+	.byte	0x50
+	.byte	0x8
+	.byte	0xe
+	.byte	0x8
+	.long	0x2fb
+	.uleb128 0x1
+	.long	.LASF56
+	.byte	0x8
+	.byte	0xf
+	.byte	0x9
+	.long	0x476
+	.byte	0
+	.byte	0
+	.uleb128 0x4
+	.long	.LASF57
+	.byte	0x9
+	.byte	0x23
+	.byte	0x17
+	.long	0x307
+	.uleb128 0x2
+	.long	0x30c
+	.uleb128 0x8
+	.long	.LASF58
+	.uleb128 0x16
+	.string	"Lib"
+	.byte	0x9
+	.byte	0x2a
+	.byte	0x16
+	.long	0x31d
+	.uleb128 0x2
+	.long	0x322
+	.uleb128 0x17
+	.string	"lib"
+	.uleb128 0x4
+	.long	.LASF59
+	.byte	0x9
+	.byte	0x2b
+	.byte	0x1a
+	.long	0x333
+	.uleb128 0x2
+	.long	0x338
+	.uleb128 0x6
+	.long	.LASF60
+	.byte	0x58
+	.byte	0xa
+	.byte	0x4a
+	.byte	0x8
+	.long	0x3e1
+	.uleb128 0x1
+	.long	.LASF61
+	.byte	0xa
+	.byte	0x4b
+	.byte	0xb
+	.long	0x2cf
+	.byte	0
+	.uleb128 0x1
+	.long	.LASF62
+	.byte	0xa
+	.byte	0x4c
+	.byte	0x8
+	.long	0x29f
+	.byte	0x8
+	.uleb128 0x1
+	.long	.LASF63
+	.byte	0xa
+	.byte	0x4d
+	.byte	0x8
+	.long	0x29f
+	.byte	0x9
+	.uleb128 0x1
+	.long	.LASF64
+	.byte	0xa
+	.byte	0x4e
+	.byte	0x9
+	.long	0x28e
+	.byte	0x10
+	.uleb128 0x1
+	.long	.LASF65
+	.byte	0xa
+	.byte	0x50
+	.byte	0xb
+	.long	0x4bd
+	.byte	0x18
+	.uleb128 0x1
+	.long	.LASF66
+	.byte	0xa
+	.byte	0x51
+	.byte	0x9
+	.long	0x2b7
+	.byte	0x20
+	.uleb128 0x1
+	.long	.LASF67
+	.byte	0xa
+	.byte	0x53
+	.byte	0x9
+	.long	0x2c3
+	.byte	0x28
+	.uleb128 0xa
+	.string	"pos"
+	.byte	0x54
+	.byte	0x9
+	.long	0x2b7
+	.byte	0x30
+	.uleb128 0x1
+	.long	.LASF68
+	.byte	0xa
+	.byte	0x55
+	.byte	0x9
+	.long	0x2b7
+	.byte	0x38
+	.uleb128 0x1
+	.long	.LASF69
+	.byte	0xa
+	.byte	0x57
+	.byte	0xe
+	.long	0x4f6
+	.byte	0x40
+	.uleb128 0x1
+	.long	.LASF70
+	.byte	0xa
+	.byte	0x58
+	.byte	0xb
+	.long	0x46a
+	.byte	0x48
+	.uleb128 0x1
+	.long	.LASF71
+	.byte	0xa
+	.byte	0x5a
+	.byte	0x9
+	.long	0x2c3
+	.byte	0x50
+	.byte	0
+	.uleb128 0x4
+	.long	.LASF72
+	.byte	0x9
+	.byte	0x2c
+	.byte	0x1b
+	.long	0x3ed
+	.uleb128 0x2
+	.long	0x3f2
+	.uleb128 0x6
+	.long	.LASF73
+	.byte	0x28
+	.byte	0xa
+	.byte	0x42
+	.byte	0x8
+	.long	0x43d
+	.uleb128 0x1
+	.long	.LASF61
+	.byte	0xa
+	.byte	0x43
+	.byte	0x9
+	.long	0x2c3
+	.byte	0
+	.uleb128 0xa
+	.string	"ar"
+	.byte	0x44
+	.byte	0xa
+	.long	0x327
+	.byte	0x8
+	.uleb128 0xa
+	.string	"pos"
+	.byte	0x45
+	.byte	0x9
+	.long	0x2b7
+	.byte	0x10
+	.uleb128 0xa
+	.string	"lib"
+	.byte	0x46
+	.byte	0x6
+	.long	0x311
+	.byte	0x18
+	.uleb128 0x1
+	.long	.LASF74
+	.byte	0xa
+	.byte	0x47
+	.byte	0x8
+	.long	0x29f
+	.byte	0x20
+	.byte	0
+	.uleb128 0x6
+	.long	.LASF75
+	.byte	0x10
+	.byte	0x9
+	.byte	0x57
+	.byte	0x10
+	.long	0x465
+	.uleb128 0x1
+	.long	.LASF76
+	.byte	0x9
+	.byte	0x57
+	.byte	0x24
+	.long	0x2fb
+	.byte	0
+	.uleb128 0x1
+	.long	.LASF77
+	.byte	0x9
+	.byte	0x57
+	.byte	0x40
+	.long	0x465
+	.byte	0x8
+	.byte	0
+	.uleb128 0x2
+	.long	0x43d
+	.uleb128 0x4
+	.long	.LASF78
+	.byte	0x9
+	.byte	0x57
+	.byte	0x49
+	.long	0x465
+	.uleb128 0xb
+	.long	0x2c3
+	.long	0x486
+	.uleb128 0xc
+	.long	0x4a
+	.byte	0x9
+	.byte	0
+	.uleb128 0x18
+	.long	.LASF100
+	.byte	0x7
+	.byte	0x4
+	.long	0x43
+	.byte	0xa
+	.byte	0x24
+	.byte	0x6
+	.long	0x4bd
+	.uleb128 0x7
+	.long	.LASF79
+	.byte	0
+	.uleb128 0x7
+	.long	.LASF80
+	.byte	0
+	.uleb128 0x7
+	.long	.LASF81
+	.byte	0x1
+	.uleb128 0x7
+	.long	.LASF82
+	.byte	0x2
+	.uleb128 0x7
+	.long	.LASF83
+	.byte	0x3
+	.uleb128 0x7
+	.long	.LASF84
+	.byte	0x4
+	.byte	0
+	.uleb128 0x4
+	.long	.LASF85
+	.byte	0xa
+	.byte	0x2d
+	.byte	0x17
+	.long	0x486
+	.uleb128 0x6
+	.long	.LASF86
+	.byte	0x10
+	.byte	0xa
+	.byte	0x40
+	.byte	0x10
+	.long	0x4f1
+	.uleb128 0x1
+	.long	.LASF76
+	.byte	0xa
+	.byte	0x40
+	.byte	0x2a
+	.long	0x3e1
+	.byte	0
+	.uleb128 0x1
+	.long	.LASF77
+	.byte	0xa
+	.byte	0x40
+	.byte	0x49
+	.long	0x4f1
+	.byte	0x8
+	.byte	0
+	.uleb128 0x2
+	.long	0x4c9
+	.uleb128 0x4
+	.long	.LASF87
+	.byte	0xa
+	.byte	0x40
+	.byte	0x52
+	.long	0x4f1
+	.uleb128 0xd
+	.long	.LASF88
+	.byte	0x10
+	.long	0x517
+	.uleb128 0x5
+	.long	0x2c3
+	.uleb128 0x5
+	.long	0x7e
+	.byte	0
+	.uleb128 0xe
+	.long	.LASF90
+	.byte	0xa
+	.byte	0x6d
+	.byte	0x10
+	.long	0x327
+	.long	0x52d
+	.uleb128 0x5
+	.long	0x2c3
+	.byte	0
+	.uleb128 0xd
+	.long	.LASF89
+	.byte	0x8
+	.long	0x547
+	.uleb128 0x5
+	.long	0x2c3
+	.uleb128 0x5
+	.long	0x2e
+	.uleb128 0x5
+	.long	0x2e
+	.byte	0
+	.uleb128 0x19
+	.long	.LASF91
+	.byte	0xc
+	.value	0x324
+	.byte	0xc
+	.long	0x2e
+	.long	0x55e
+	.uleb128 0x5
+	.long	0x29a
+	.byte	0
+	.uleb128 0xe
+	.long	.LASF92
+	.byte	0x8
+	.byte	0x29
+	.byte	0x11
+	.long	0x2cf
+	.long	0x574
+	.uleb128 0x5
+	.long	0x2c3
+	.byte	0
+	.uleb128 0xf
+	.long	.LASF94
+	.byte	0x18
+	.uleb128 0xd
+	.long	.LASF93
+	.byte	0x15
+	.long	0x58f
+	.uleb128 0x5
+	.long	0x80
+	.uleb128 0x5
+	.long	0x58f
+	.byte	0
+	.uleb128 0x2
+	.long	0x594
+	.uleb128 0x1a
+	.uleb128 0xf
+	.long	.LASF95
+	.byte	0x17
+	.uleb128 0x1b
+	.long	.LASF101
+	.byte	0x1
+	.byte	0x12
+	.byte	0x1
+	.quad	.LFB1
+	.quad	.LFE1-.LFB1
+	.uleb128 0x1
+	.byte	0x9c
+	.long	0x5e4
+	.uleb128 0x1c
+	.string	"ar"
+	.byte	0x1
+	.byte	0x14
+	.byte	0xa
+	.long	0x327
+	.uleb128 0x2
+	.byte	0x91
+	.sleb128 -40
+	.uleb128 0x10
+	.long	.LASF96
+	.byte	0x15
+	.byte	0xb
+	.long	0x2cf
+	.uleb128 0x2
+	.byte	0x91
+	.sleb128 -24
+	.uleb128 0x10
+	.long	.LASF97
+	.byte	0x16
+	.byte	0x6
+	.long	0x2e
+	.uleb128 0x2
+	.byte	0x91
+	.sleb128 -28
+	.byte	0
+	.uleb128 0x1d
+	.long	.LASF102
+	.byte	0x1
+	.byte	0xa
+	.byte	0x1
+	.quad	.LFB0
+	.quad	.LFE0-.LFB0
+	.uleb128 0x1
+	.byte	0x9c
+	.byte	0
+	.section	.debug_abbrev,"",@progbits
+.Ldebug_abbrev0:
+	.uleb128 0x1
+	.uleb128 0xd
+	.byte	0
+	.uleb128 0x3
+	.uleb128 0xe
+	.uleb128 0x3a
+	.uleb128 0xb
+	.uleb128 0x3b
+	.uleb128 0xb
+	.uleb128 0x39
+	.uleb128 0xb
+	.uleb128 0x49
+	.uleb128 0x13
+	.uleb128 0x38
+	.uleb128 0xb
+	.byte	0
+	.byte	0
+	.uleb128 0x2
+	.uleb128 0xf
+	.byte	0
+	.uleb128 0xb
+	.uleb128 0x21
+	.sleb128 8
+	.uleb128 0x49
+	.uleb128 0x13
+	.byte	0
+	.byte	0
+	.uleb128 0x3
+	.uleb128 0x24
+	.byte	0
+	.uleb128 0xb
+	.uleb128 0xb
+	.uleb128 0x3e
+	.uleb128 0xb
+	.uleb128 0x3
+	.uleb128 0xe
+	.byte	0
+	.byte	0
+	.uleb128 0x4
+	.uleb128 0x16
+	.byte	0
+	.uleb128 0x3
+	.uleb128 0xe
+	.uleb128 0x3a
+	.uleb128 0xb
+	.uleb128 0x3b
+	.uleb128 0xb
+	.uleb128 0x39
+	.uleb128 0xb
+	.uleb128 0x49
+	.uleb128 0x13
+	.byte	0
+	.byte	0
+	.uleb128 0x5
+	.uleb128 0x5
+	.byte	0
+	.uleb128 0x49
+	.uleb128 0x13
+	.byte	0
+	.byte	0
+	.uleb128 0x6
+	.uleb128 0x13
+	.byte	0x1
+	.uleb128 0x3
+	.uleb128 0xe
+	.uleb128 0xb
+	.uleb128 0xb
+	.uleb128 0x3a
+	.uleb128 0xb
+	.uleb128 0x3b
+	.uleb128 0xb
+	.uleb128 0x39
+	.uleb128 0xb
+	.uleb128 0x1
+	.uleb128 0x13
+	.byte	0
+	.byte	0
+	.uleb128 0x7
+	.uleb128 0x28
+	.byte	0
+	.uleb128 0x3
+	.uleb128 0xe
+	.uleb128 0x1c
+	.uleb128 0xb
+	.byte	0
+	.byte	0
+	.uleb128 0x8
+	.uleb128 0x13
+	.byte	0
+	.uleb128 0x3
+	.uleb128 0xe
+	.uleb128 0x3c
+	.uleb128 0x19
+	.byte	0
+	.byte	0
+	.uleb128 0x9
+	.uleb128 0x16
+	.byte	0
+	.uleb128 0x3
+	.uleb128 0xe
+	.uleb128 0x3a
+	.uleb128 0x21
+	.sleb128 6
+	.uleb128 0x3b
+	.uleb128 0x5
+	.uleb128 0x39
+	.uleb128 0xb
+	.uleb128 0x49
+	.uleb128 0x13
+	.byte	0
+	.byte	0
+	.uleb128 0xa
+	.uleb128 0xd
+	.byte	0
+	.uleb128 0x3
+	.uleb128 0x8
+	.uleb128 0x3a
+	.uleb128 0x21
+	.sleb128 10
+	.uleb128 0x3b
+	.uleb128 0xb
+	.uleb128 0x39
+	.uleb128 0xb
+	.uleb128 0x49
+	.uleb128 0x13
+	.uleb128 0x38
+	.uleb128 0xb
+	.byte	0
+	.byte	0
+	.uleb128 0xb
+	.uleb128 0x1
+	.byte	0x1
+	.uleb128 0x49
+	.uleb128 0x13
+	.uleb128 0x1
+	.uleb128 0x13
+	.byte	0
+	.byte	0
+	.uleb128 0xc
+	.uleb128 0x21
+	.byte	0
+	.uleb128 0x49
+	.uleb128 0x13
+	.uleb128 0x2f
+	.uleb128 0xb
+	.byte	0
+	.byte	0
+	.uleb128 0xd
+	.uleb128 0x2e
+	.byte	0x1
+	.uleb128 0x3f
+	.uleb128 0x19
+	.uleb128 0x3
+	.uleb128 0xe
+	.uleb128 0x3a
+	.uleb128 0x21
+	.sleb128 11
+	.uleb128 0x3b
+	.uleb128 0xb
+	.uleb128 0x39
+	.uleb128 0x21
+	.sleb128 6
+	.uleb128 0x27
+	.uleb128 0x19
+	.uleb128 0x3c
+	.uleb128 0x19
+	.uleb128 0x1
+	.uleb128 0x13
+	.byte	0
+	.byte	0
+	.uleb128 0xe
+	.uleb128 0x2e
+	.byte	0x1
+	.uleb128 0x3f
+	.uleb128 0x19
+	.uleb128 0x3
+	.uleb128 0xe
+	.uleb128 0x3a
+	.uleb128 0xb
+	.uleb128 0x3b
+	.uleb128 0xb
+	.uleb128 0x39
+	.uleb128 0xb
+	.uleb128 0x27
+	.uleb128 0x19
+	.uleb128 0x49
+	.uleb128 0x13
+	.uleb128 0x3c
+	.uleb128 0x19
+	.uleb128 0x1
+	.uleb128 0x13
+	.byte	0
+	.byte	0
+	.uleb128 0xf
+	.uleb128 0x2e
+	.byte	0
+	.uleb128 0x3f
+	.uleb128 0x19
+	.uleb128 0x3
+	.uleb128 0xe
+	.uleb128 0x3a
+	.uleb128 0x21
+	.sleb128 11
+	.uleb128 0x3b
+	.uleb128 0xb
+	.uleb128 0x39
+	.uleb128 0x21
+	.sleb128 6
+	.uleb128 0x27
+	.uleb128 0x19
+	.uleb128 0x3c
+	.uleb128 0x19
+	.byte	0
+	.byte	0
+	.uleb128 0x10
+	.uleb128 0x34
+	.byte	0
+	.uleb128 0x3
+	.uleb128 0xe
+	.uleb128 0x3a
+	.uleb128 0x21
+	.sleb128 1
+	.uleb128 0x3b
+	.uleb128 0xb
+	.uleb128 0x39
+	.uleb128 0xb
+	.uleb128 0x49
+	.uleb128 0x13
+	.uleb128 0x2
+	.uleb128 0x18
+	.byte	0
+	.byte	0
+	.uleb128 0x11
+	.uleb128 0x11
+	.byte	0x1
+	.uleb128 0x25
+	.uleb128 0xe
+	.uleb128 0x13
+	.uleb128 0xb
+	.uleb128 0x3
+	.uleb128 0x1f
+	.uleb128 0x1b
+	.uleb128 0x1f
+	.uleb128 0x11
+	.uleb128 0x1
+	.uleb128 0x12
+	.uleb128 0x7
+	.uleb128 0x10
+	.uleb128 0x17
+	.byte	0
+	.byte	0
+	.uleb128 0x12
+	.uleb128 0x24
+	.byte	0
+	.uleb128 0xb
+	.uleb128 0xb
+	.uleb128 0x3e
+	.uleb128 0xb
+	.uleb128 0x3
+	.uleb128 0x8
+	.byte	0
+	.byte	0
+	.uleb128 0x13
+	.uleb128 0xf
+	.byte	0
+	.uleb128 0xb
+	.uleb128 0xb
+	.byte	0
+	.byte	0
+	.uleb128 0x14
+	.uleb128 0x26
+	.byte	0
+	.uleb128 0x49
+	.uleb128 0x13
+	.byte	0
+	.byte	0
+	.uleb128 0x15
+	.uleb128 0x16
+	.byte	0
+	.uleb128 0x3
+	.uleb128 0xe
+	.uleb128 0x3a
+	.uleb128 0xb
+	.uleb128 0x3b
+	.uleb128 0xb
+	.uleb128 0x39
+	.uleb128 0xb
+	.byte	0
+	.byte	0
+	.uleb128 0x16
+	.uleb128 0x16
+	.byte	0
+	.uleb128 0x3
+	.uleb128 0x8
+	.uleb128 0x3a
+	.uleb128 0xb
+	.uleb128 0x3b
+	.uleb128 0xb
+	.uleb128 0x39
+	.uleb128 0xb
+	.uleb128 0x49
+	.uleb128 0x13
+	.byte	0
+	.byte	0
+	.uleb128 0x17
+	.uleb128 0x13
+	.byte	0
+	.uleb128 0x3
+	.uleb128 0x8
+	.uleb128 0x3c
+	.uleb128 0x19
+	.byte	0
+	.byte	0
+	.uleb128 0x18
+	.uleb128 0x4
+	.byte	0x1
+	.uleb128 0x3
+	.uleb128 0xe
+	.uleb128 0x3e
+	.uleb128 0xb
+	.uleb128 0xb
+	.uleb128 0xb
+	.uleb128 0x49
+	.uleb128 0x13
+	.uleb128 0x3a
+	.uleb128 0xb
+	.uleb128 0x3b
+	.uleb128 0xb
+	.uleb128 0x39
+	.uleb128 0xb
+	.uleb128 0x1
+	.uleb128 0x13
+	.byte	0
+	.byte	0
+	.uleb128 0x19
+	.uleb128 0x2e
+	.byte	0x1
+	.uleb128 0x3f
+	.uleb128 0x19
+	.uleb128 0x3
+	.uleb128 0xe
+	.uleb128 0x3a
+	.uleb128 0xb
+	.uleb128 0x3b
+	.uleb128 0x5
+	.uleb128 0x39
+	.uleb128 0xb
+	.uleb128 0x27
+	.uleb128 0x19
+	.uleb128 0x49
+	.uleb128 0x13
+	.uleb128 0x3c
+	.uleb128 0x19
+	.uleb128 0x1
+	.uleb128 0x13
+	.byte	0
+	.byte	0
+	.uleb128 0x1a
+	.uleb128 0x15
+	.byte	0
+	.uleb128 0x27
+	.uleb128 0x19
+	.byte	0
+	.byte	0
+	.uleb128 0x1b
+	.uleb128 0x2e
+	.byte	0x1
+	.uleb128 0x3
+	.uleb128 0xe
+	.uleb128 0x3a
+	.uleb128 0xb
+	.uleb128 0x3b
+	.uleb128 0xb
+	.uleb128 0x39
+	.uleb128 0xb
+	.uleb128 0x27
+	.uleb128 0x19
+	.uleb128 0x11
+	.uleb128 0x1
+	.uleb128 0x12
+	.uleb128 0x7
+	.uleb128 0x40
+	.uleb128 0x18
+	.uleb128 0x7c
+	.uleb128 0x19
+	.uleb128 0x1
+	.uleb128 0x13
+	.byte	0
+	.byte	0
+	.uleb128 0x1c
+	.uleb128 0x34
+	.byte	0
+	.uleb128 0x3
+	.uleb128 0x8
+	.uleb128 0x3a
+	.uleb128 0xb
+	.uleb128 0x3b
+	.uleb128 0xb
+	.uleb128 0x39
+	.uleb128 0xb
+	.uleb128 0x49
+	.uleb128 0x13
+	.uleb128 0x2
+	.uleb128 0x18
+	.byte	0
+	.byte	0
+	.uleb128 0x1d
+	.uleb128 0x2e
+	.byte	0
+	.uleb128 0x3f
+	.uleb128 0x19
+	.uleb128 0x3
+	.uleb128 0xe
+	.uleb128 0x3a
+	.uleb128 0xb
+	.uleb128 0x3b
+	.uleb128 0xb
+	.uleb128 0x39
+	.uleb128 0xb
+	.uleb128 0x11
+	.uleb128 0x1
+	.uleb128 0x12
+	.uleb128 0x7
+	.uleb128 0x40
+	.uleb128 0x18
+	.uleb128 0x7c
+	.uleb128 0x19
+	.byte	0
+	.byte	0
+	.byte	0
+	.section	.debug_aranges,"",@progbits
+	.long	0x2c
+	.value	0x2
+	.long	.Ldebug_info0
+	.byte	0x8
+	.byte	0
+	.value	0
+	.value	0
+	.quad	.Ltext0
+	.quad	.Letext0-.Ltext0
+	.quad	0
+	.quad	0
+	.section	.debug_line,"",@progbits
+.Ldebug_line0:
+	.section	.debug_str,"MS",@progbits,1
+.LASF23:
+	.string	"_IO_buf_end"
+.LASF87:
+	.string	"ArEntryList"
+.LASF56:
+	.string	"partv"
+.LASF70:
+	.string	"symes"
+.LASF13:
+	.string	"double"
+.LASF62:
+	.string	"hasFile"
+.LASF26:
+	.string	"_IO_save_end"
+.LASF7:
+	.string	"short int"
+.LASF14:
+	.string	"size_t"
+.LASF36:
+	.string	"_offset"
+.LASF73:
+	.string	"ar_entry"
+.LASF89:
+	.string	"testIntEqual"
+.LASF83:
+	.string	"AR_AIX4"
+.LASF20:
+	.string	"_IO_write_ptr"
+.LASF15:
+	.string	"_flags"
+.LASF86:
+	.string	"ArEntryListCons"
+.LASF64:
+	.string	"file"
+.LASF77:
+	.string	"rest"
+.LASF27:
+	.string	"_markers"
+.LASF17:
+	.string	"_IO_read_end"
+.LASF40:
+	.string	"_freeres_buf"
+.LASF78:
+	.string	"SymeList"
+.LASF85:
+	.string	"ArFmtTag"
+.LASF100:
+	.string	"arFmtTag"
+.LASF60:
+	.string	"archive"
+.LASF68:
+	.string	"__next"
+.LASF88:
+	.string	"testIsNotNull"
+.LASF12:
+	.string	"float"
+.LASF44:
+	.string	"FILE"
+.LASF65:
+	.string	"format"
+.LASF51:
+	.string	"Offset"
+.LASF35:
+	.string	"_lock"
+.LASF8:
+	.string	"long int"
+.LASF82:
+	.string	"AR_CMS"
+.LASF32:
+	.string	"_cur_column"
+.LASF79:
+	.string	"AR_START"
+.LASF19:
+	.string	"_IO_write_base"
+.LASF61:
+	.string	"name"
+.LASF54:
+	.string	"_IO_FILE"
+.LASF102:
+	.string	"archiveTestSuite"
+.LASF58:
+	.string	"syme"
+.LASF50:
+	.string	"ULong"
+.LASF2:
+	.string	"unsigned char"
+.LASF6:
+	.string	"signed char"
+.LASF37:
+	.string	"_codecvt"
+.LASF92:
+	.string	"fnameParse"
+.LASF80:
+	.string	"AR_Arch"
+.LASF74:
+	.string	"mark"
+.LASF34:
+	.string	"_shortbuf"
+.LASF45:
+	.string	"_IO_marker"
+.LASF81:
+	.string	"AR_AIX"
+.LASF71:
+	.string	"names"
+.LASF31:
+	.string	"_old_offset"
+.LASF28:
+	.string	"_chain"
+.LASF43:
+	.string	"_unused2"
+.LASF96:
+	.string	"fname"
+.LASF52:
+	.string	"String"
+.LASF98:
+	.string	"GNU C99 12.2.0 -mtune=generic -march=x86-64 -g -O0 -std=c99 -fasynchronous-unwind-tables"
+.LASF3:
+	.string	"short unsigned int"
+.LASF97:
+	.string	"status"
+.LASF11:
+	.string	"char"
+.LASF95:
+	.string	"init"
+.LASF38:
+	.string	"_wide_data"
+.LASF39:
+	.string	"_freeres_list"
+.LASF75:
+	.string	"SymeListCons"
+.LASF57:
+	.string	"Syme"
+.LASF41:
+	.string	"__pad5"
+.LASF55:
+	.string	"fileName"
+.LASF72:
+	.string	"ArEntry"
+.LASF46:
+	.string	"_IO_codecvt"
+.LASF94:
+	.string	"fini"
+.LASF91:
+	.string	"system"
+.LASF5:
+	.string	"long unsigned int"
+.LASF21:
+	.string	"_IO_write_end"
+.LASF10:
+	.string	"__off64_t"
+.LASF69:
+	.string	"members"
+.LASF29:
+	.string	"_fileno"
+.LASF66:
+	.string	"size"
+.LASF9:
+	.string	"__off_t"
+.LASF25:
+	.string	"_IO_backup_base"
+.LASF84:
+	.string	"AR_LIMIT"
+.LASF22:
+	.string	"_IO_buf_base"
+.LASF93:
+	.string	"showTest"
+.LASF30:
+	.string	"_flags2"
+.LASF67:
+	.string	"item"
+.LASF42:
+	.string	"_mode"
+.LASF18:
+	.string	"_IO_read_base"
+.LASF53:
+	.string	"FileName"
+.LASF63:
+	.string	"hasIntermed"
+.LASF33:
+	.string	"_vtable_offset"
+.LASF47:
+	.string	"_IO_wide_data"
+.LASF24:
+	.string	"_IO_save_base"
+.LASF101:
+	.string	"testArchive"
+.LASF49:
+	.string	"UByte"
+.LASF59:
+	.string	"Archive"
+.LASF4:
+	.string	"unsigned int"
+.LASF16:
+	.string	"_IO_read_ptr"
+.LASF90:
+	.string	"arFrString"
+.LASF48:
+	.string	"long long int"
+.LASF99:
+	.string	"_IO_lock_t"
+.LASF76:
+	.string	"first"
+	.section	.debug_line_str,"MS",@progbits,1
+.LASF0:
+	.string	"test/test_archive.c"
+.LASF1:
+	.string	"/repo/aldor/aldor/src"
+	.ident	"GCC: (Debian 12.2.0-14+deb12u1) 12.2.0"
+	.section	.note.GNU-stack,"",@progbits
